@@ -233,6 +233,18 @@ func (e *kvElection) Start(ctx context.Context) error {
 	return nil
 }
 
+// startAcquireRound runs an acquisition round in a goroutine tracked by the
+// election's WaitGroup, so that Stop waits for it and no store operation is
+// issued after Stop has returned. The round ends as soon as ctx is cancelled and
+// the operation in flight, if any, has returned.
+func (e *kvElection) startAcquireRound(ctx context.Context) {
+	e.wg.Add(1)
+	go func() {
+		defer e.wg.Done()
+		e.attemptAcquireWithRetry(ctx)
+	}()
+}
+
 // attemptAcquireWithRetry attempts to acquire leadership with initial jitter and exponential backoff.
 // The jitter prevents thundering herd problems when multiple followers detect leader failure simultaneously.
 func (e *kvElection) attemptAcquireWithRetry(ctx context.Context) {
